@@ -22,12 +22,21 @@ def log_uniform(draw, lo, hi):
 def freq_grid(draw, min_n=2, max_n=40, allow_zero=True, fmax=5.0):
     """Strictly increasing frequency grid built by construction (cumulative positive steps)."""
     n = draw(st.integers(min_n, max_n))
-    kind = draw(st.sampled_from(["uniform", "geometric", "random", "random"]))
+    kind = draw(st.sampled_from(["uniform", "geometric", "random", "random", "integer_steps"]))
     zero = allow_zero and draw(st.integers(0, 3)) == 0
     f0 = 0.0 if zero else draw(fl(0.005, 0.2))
     if kind == "uniform":
         df = draw(fl(0.002, fmax / (2 * n)))
         f = [f0 + i * df for i in range(n)]
+    elif kind == "integer_steps":
+        # steps that are small whole multiples of a base resolution (refined near the peak, coarse in the tail): not
+        # uniform, although the first step often equals the mean step and sub-bands are often locally uniform
+        base = draw(st.sampled_from([0.005, 0.01, 0.0025, 0.00390625]))
+        mult = draw(st.lists(st.integers(1, 3), min_size=n - 1, max_size=n - 1))
+        f0 = 0.0 if zero else base * draw(st.integers(1, 20))
+        f = [f0]
+        for m in mult:
+            f.append(f[-1] + m * base)
     elif kind == "geometric":
         r = draw(fl(1.02, 1.25))
         start = f0 if f0 > 0 else draw(fl(0.005, 0.1))
@@ -53,7 +62,19 @@ def dir_grid(draw, min_n=8, max_n=144, uniform_only=False, allowed_n=None, relab
     (0.5, 170) degrees, optionally rolled so it does not start at its minimum."""
     n = draw(st.sampled_from(allowed_n)) if allowed_n else draw(st.integers(min_n, max_n))
     uniform = uniform_only or draw(st.booleans())
-    if uniform:
+    if not uniform and draw(st.integers(0, 3)) == 0:
+        # equally spaced labels whose wrap-around bin has another width (0, 10, ..., 340: a 20 degree bin over the seam;
+        # sectors of a scanning instrument): non-uniform although every interior difference is the same
+        wrap = draw(st.one_of(fl(0.3, 0.95), fl(1.05, 3.0))) * 360.0 / n
+        wrap = min(wrap, 160.0)
+        d = (360.0 - wrap) / (n - 1)
+        t0 = draw(st.sampled_from([0.0, 0.0, d / 2, 15.0]))
+        if t0 + (n - 1) * d >= 360.0:
+            t0 = 0.0
+        ang = [t0 + j * d for j in range(n)]
+        roll = 0
+        kind = "regular_interior_other_wrap_bin"
+    elif uniform:
         start_kind = draw(st.sampled_from(["zero", "half", "any"]))
         d = 360.0 / n
         t0 = {"zero": 0.0, "half": d / 2}.get(start_kind)
